@@ -240,6 +240,7 @@ pub fn gen_random(seed: u64, idx: u64) -> Plan {
     let mut r = Rng::derive(mix(seed, idx), "c20-random");
     let mode = if r.chance(1, 2) { Mode::Cancel } else { Mode::Detached };
     let nconns = *r.pick(&[1usize, 1, 2, 3, 4]);
+    let tls = r.chance(1, 5);
     let mut nonce = 1u64;
     let mut conns = Vec::new();
     for i in 0..nconns {
@@ -256,15 +257,21 @@ pub fn gen_random(seed: u64, idx: u64) -> Plan {
             conns.push(gen_ws_conn(&mut r, &mut nonce, 9000 + i as u16, true));
         }
     }
+    if tls {
+        // the same handshakes and payloads through the HTTPS acceptor
+        for c in conns.iter_mut() {
+            c.kind = ConnKind::Tls;
+        }
+    }
     Plan {
         property: "C20".into(),
         seed: mix(seed, idx),
-        server: ServerPlan { mode, body_limit: 1024, api: ApiKind::Ws, rt_override: None, tls: false },
+        server: ServerPlan { mode, body_limit: 1024, api: ApiKind::Ws, rt_override: None, tls },
         conns,
         shutdown: None,
         accept_errs: vec![],
         final_health: false,
-        note: format!("random idx={idx}"),
+        note: format!("random idx={idx} tls={tls}"),
     }
 }
 
@@ -298,7 +305,7 @@ impl Scenario for C20 {
         ]
     }
     fn required_probes(&self) -> Vec<&'static str> {
-        vec!["upgrade_checked", "echo_exact_checked", "upgrade_with_early_bytes", "refusal_checked", "followup_after_refusal_checked", "multi_token_list"]
+        vec!["upgrade_checked", "echo_exact_checked", "upgrade_with_early_bytes", "refusal_checked", "followup_after_refusal_checked", "multi_token_list", "upgrade_over_tls_checked"]
     }
     fn run_job(&self, seed: u64, _tier: Tier, idx: u64, sink: &mut Sink) {
         for k in 0..50 {
@@ -338,6 +345,9 @@ pub fn check_ws_conn(
             let st = r.resp.status;
             if *valid {
                 probes.push("upgrade_checked");
+                if cp.kind == ConnKind::Tls {
+                    probes.push("upgrade_over_tls_checked");
+                }
                 if st != 101 {
                     v.push(Violation {
                         rule: if tab { format!("{prefix}.tab_ows_refused") } else { format!("{prefix}.valid_handshake_refused") },
